@@ -125,6 +125,14 @@ CHECKS = {
         "Trusted: CPython. Not covered: larger grammars, longer texts.",
         "5/C16",
     ),
+    "C17": (
+        "exploration", "enum",
+        "exhaustive enumeration of a bounded JSON document generator (+ all proper prefixes, layouts) and of all calculator token strings up to N tokens; independent reference oracles (json.loads; a precedence-table evaluator)",
+        "JSON: every generated document in four whitespace layouts is parsed by both bundled grammars in all four modes and the tree is mirrored against json.loads; every proper prefix must be rejected. "
+        "Calculator: every well-formed token string up to N tokens (two layouts) whose every bracketing evaluates safely is evaluated by the three bundled implementations - with their parser modules generated in memory from the current tree, optimised and unoptimised - and compared with an independent recursive-descent evaluator of the documented precedence table.",
+        "Trusted: json.loads, Python integer arithmetic, the 40-line reference evaluator. The generators are bounded (depth 3 / width 2; N tokens); nothing is sampled.",
+        "5/C17",
+    ),
     "C18": (
         "model_checking", "enum",
         "exhaustive enumeration of operator tables x well-formed token streams against (1) a transcription of pest's binding-power algorithm and (2) brute force over all trees satisfying the statement's constraints",
